@@ -24,4 +24,6 @@ SameEnd == pos = Len(C.recs) => C.end_inline = C.end_after
 Pure == \A i \in 1..pos : C.recs[i].pure /\ C.recs[i].stable
 \* and yielded records carry the same values as the ones kept afterwards
 SameValues == pos = Len(C.recs) => C.values_equal
+\* for selectors with an independently known meaning: the reader yields exactly the records that meaning keeps
+RefAgrees == pos = Len(C.recs) => C.ref_ok
 =============================================================================
